@@ -105,6 +105,13 @@ pub struct Eta {
     e: i32,
 }
 
+/// the same shared file, spelled differently in the attribute
+#[derive(TS)]
+#[ts(export_to = "sub/../shared.ts")]
+pub struct AlD {
+    d: i32,
+}
+
 // ---- two types of one shared file importing different names from one and the same other shared file
 #[derive(TS)]
 #[ts(export_to = "sub/leaves.ts")]
@@ -277,6 +284,7 @@ pub fn entries() -> Vec<Entry> {
         entry!("LeafA", LeafA),
         entry!("LeafB", LeafB),
         entry!("LeafC", LeafC),
+        entry!("AlD", AlD),
         entry!("AlA", AlA),
         entry!("AlB", AlB),
         entry!("AlC", AlC),
